@@ -9,8 +9,10 @@ import time
 
 VERIF = os.path.realpath(os.path.join(os.path.dirname(__file__), ".."))
 KNOWN_FILE = os.path.join(VERIF, "KNOWN_FINDINGS.txt")
-EVIDENCE_DIR = os.path.join(VERIF, "evidence")
-REPLAY_DIR = os.path.join(VERIF, "replays")
+# runs against another tree than /repo (seeded changes in scratch worktrees) must not overwrite the committed evidence
+_ALT = os.path.realpath(os.environ.get("QMC_REPO_ROOT", "/repo")) != "/repo"
+EVIDENCE_DIR = os.path.join(VERIF, ".cache", "evidence_other_tree") if _ALT else os.path.join(VERIF, "evidence")
+REPLAY_DIR = os.path.join(VERIF, ".cache", "replays_other_tree") if _ALT else os.path.join(VERIF, "replays")
 SCHEMA = "/root/.vp/EVIDENCE.schema.json"
 
 
